@@ -173,6 +173,7 @@ def _suff():
         prop="C10", module="Suff", trace_module="SuffTrace", driver="drivers.suff",
         cfg={"quick": "Suff_quick.cfg", "thorough": "Suff_thorough.cfg"}, sample={"quick": 1400, "thorough": 12000}, variants=variants,
         spec_files=["Suff.tla", "SuffDefs.tla", "SuffTrace.tla", "Cal.tla"],
+        always=lambda b: 'span |-> 328' in b and 'cls |-> "billing"' in b,        # the off-cycle (known finding) cases are never sampled away
         rule="TLC enumerates class x role x fuel x negatives x start date x span {250..420 incl. 328/329/365/366} x missing-usage and "
              "missing-temperature day counts at each 90% threshold -1/0/+1 x placements (block, early block, spread); a seeded sample is realised as "
              "real frames / series pairs (daily, billing: one row per day; hourly: 24 rows per day) in DST-free and DST zones; "
@@ -184,6 +185,29 @@ def _suff():
                      "billing usage gaps are not generated here (per-period usage is the Resample module's question)"],
         invariants_note="MC config checks oracle self-consistency, Must within May, that each threshold sits exactly where the statement puts it, "
                         "the 329-365 length rule and the validity of generated placements")
+
+
+class C07Entry:
+    """C07 = RowFrame (row-level masking, daily and billing) + the aggregated-column clauses of Agg (billing aggregations)."""
+    OWN_AGG = {"ObservedIsSumOfDailyRows", "PredictedIsSumOfDailyRows", "SavingsFromAggregatedColumnsEqualRowwiseSavings", "ObservedColumnKept"}
+
+    def run(self, tier):
+        rc1 = runner.run_pure(_rowframe("C07"), tier)
+        spec = _agg()
+        spec.prop = "C07"
+        rc2 = runner.run_pure(spec, tier, evidence_suffix="_agg", owned=self.OWN_AGG)
+        runner.merge_evidence("C07", ["C07", "C07_agg"])
+        return 1 if (rc1 or rc2) else 0
+
+    def replay(self, payload):
+        if payload.get("module") == "Agg":
+            spec = _agg()
+            spec.prop = "C07"
+            return runner.run_pure(spec, "quick", only_cases=[payload["case"]], owned=self.OWN_AGG)
+        return runner.run_pure(_rowframe("C07"), "quick", only_cases=[payload["case"]])
+
+    def selftest(self):
+        return runner.selftest_pure(_rowframe("C07"))
 
 
 class C06Entry:
@@ -220,7 +244,7 @@ class LifeEntry:
         return lifeprops.selftest(self.prop)
 
 
-_REG = {"C20": lambda: PureEntry(_window()), "C07": lambda: PureEntry(_rowframe("C07")), "C19": lambda: PureEntry(_agg()), "C06": lambda: C06Entry(), "C18": lambda: PureEntry(_seg()), "C14": lambda: PureEntry(_settings()), "C10": lambda: PureEntry(_suff())}
+_REG = {"C20": lambda: PureEntry(_window()), "C07": lambda: C07Entry(), "C19": lambda: PureEntry(_agg()), "C06": lambda: C06Entry(), "C18": lambda: PureEntry(_seg()), "C14": lambda: PureEntry(_settings()), "C10": lambda: PureEntry(_suff())}
 for _p in ("C01", "C02", "C03", "C04", "C05"):
     _REG[_p] = (lambda p: (lambda: LifeEntry(p)))(_p)
 
